@@ -118,6 +118,10 @@ func goEnv() []string {
 // Pair, when set, restricts the (schema, options) pairs that are generated (nil: the full product).
 var Pair func(s *Schema, o Options) bool
 
+// CoverDir, when set, builds the driver with statement coverage of the repository's package and
+// leaves the counters there (cmd/basiscov: which generator statements does the basis reach?).
+var CoverDir string
+
 func Generate(dir, repo string, schemas []*Schema, opts []Options) ([]*Job, error) {
 	gomod := "module vbasis\n\ngo 1.21\n\nrequire github.com/200sc/bebop v0.0.0\n\nreplace github.com/200sc/bebop => " + repo + "\n"
 	if err := os.WriteFile(filepath.Join(dir, "go.mod"), []byte(gomod), 0o644); err != nil {
@@ -162,6 +166,11 @@ func Generate(dir, repo string, schemas []*Schema, opts []Options) ([]*Job, erro
 	cmd := exec.Command("go", "run", "./drv", jp, rp)
 	cmd.Dir = dir
 	cmd.Env = goEnv()
+	if CoverDir != "" {
+		cmd = exec.Command("go", "run", "-cover", "-coverpkg=github.com/200sc/bebop,vbasis/drv", "./drv", jp, rp)
+		cmd.Dir = dir
+		cmd.Env = append(goEnv(), "GOCOVERDIR="+CoverDir)
+	}
 	if out, err := cmd.CombinedOutput(); err != nil {
 		return nil, fmt.Errorf("basis driver failed (the repository does not build?): %v\n%s", err, out)
 	}
